@@ -5,6 +5,7 @@ import (
 	"go/types"
 	"sort"
 	"strings"
+	"sync"
 )
 
 // Heap is an immutable map from component name to its current term.
@@ -68,29 +69,31 @@ type Obligation struct {
 // VC accumulates the declarations, assumptions and obligations of one
 // top-level verification task (one function, or one lemma).
 type VC struct {
-	W         *World
-	Name      string
-	Lines     []string
-	declared  map[string]bool
-	compSorts map[string]Sort
-	Obls      []*Obligation
-	n         int
-	usedSpecs map[string]bool
-	usedLits  map[string]bool
-	usedFns   map[int]bool
-	Trusted   map[string]bool // assumptions this VC relied on
-	Outside   map[string]bool // constructs outside the subset that were abstracted
-	ordinals  map[string]int
-	Errors    []string
-	epoch     int
-	globals   []string
+	W            *World
+	Name         string
+	Lines        []string
+	declared     map[string]bool
+	compSorts    map[string]Sort
+	Obls         []*Obligation
+	n            int
+	usedSpecs    map[string]bool
+	usedLits     map[string]bool
+	usedFns      map[int]bool
+	Trusted      map[string]bool // assumptions this VC relied on
+	Outside      map[string]bool // constructs outside the subset that were abstracted
+	ordinals     map[string]int
+	Errors       []string
+	epoch        int
+	globals      []string
 	ifaceAsserts map[string]types.Type
 	cwFacts      map[string]string
-	names     map[string]int
-	tableDone bool
-	defs      map[string]string
-	lemmasUsed map[string]bool
-	strProv   map[string]strProvenance // string constants created by string([]byte): their source bytes
+	implText     string
+	implDone     bool
+	names        map[string]int
+	tableDone    bool
+	defs         map[string]string
+	lemmasUsed   map[string]bool
+	strProv      map[string]strProvenance // string constants created by string([]byte): their source bytes
 }
 
 type strProvenance struct {
@@ -388,7 +391,7 @@ func (o *Obligation) smtBody() string {
 		sb.WriteString(l)
 		sb.WriteByte('\n')
 	}
-	sb.WriteString(vc.implementsFacts())
+	sb.WriteString(vc.implementsFactsCached())
 	for _, l := range vc.Lines[:o.Prefix] {
 		sb.WriteString(l)
 		sb.WriteByte('\n')
@@ -443,6 +446,20 @@ func (w *World) subRefDecls() string {
 
 // implementsFacts states, for every interface type used in a type assertion,
 // which known concrete types implement it.
+// implementsFactsCached: computed once per VC under a lock (it walks shared type
+// tables of the World; query texts are generated by parallel workers).
+func (vc *VC) implementsFactsCached() string {
+	implMu.Lock()
+	defer implMu.Unlock()
+	if !vc.implDone {
+		vc.implText = vc.implementsFacts()
+		vc.implDone = true
+	}
+	return vc.implText
+}
+
+var implMu sync.Mutex
+
 func (vc *VC) implementsFacts() string {
 	var sb strings.Builder
 	var names []string
